@@ -233,6 +233,41 @@ def check_main(ctx: Ctx, fi: FuncInfo):
     ctx.check(ok, "MP-entrypoint", fi, "-e selects by name, otherwise the last definition", "", "the entry-point option does not select the function of that name / its absence does not go through find_last_qlassf", sel[0] if sel else fi.node)
     txt = norm(fi.node)
     ctx.check("parse_str(script)" in txt, "MP-entrypoint", fi, "functions come from the given script", "", "", fi.node)
+    ctx.section(check_found_test, ctx, fi, sel[0] if len(sel) == 1 else None)
+
+
+def check_found_test(ctx: Ctx, fi: FuncInfo, sel):
+    """MP-entrypoint (presence): "was a function selected" must not depend on the function's value.  `if qlassf:` is a
+    presence test only as long as no class of QlassF's MRO defines __bool__/__len__ - otherwise a selected function
+    that happens to be 'empty' (e.g. a circuit without gates) is reported as not found and nothing is printed."""
+    if sel is None or not sel.body or not isinstance(sel.body[0], ast.Assign) or not isinstance(sel.body[0].targets[0], ast.Name):
+        raise AnchorError(fi.short, "the variable holding the selected function was not found")
+    v = sel.body[0].targets[0].id
+    tests = []
+    for n in walk_no_nested(fi.node):
+        if isinstance(n, (ast.If, ast.IfExp)):
+            t = n.test
+            while isinstance(t, ast.UnaryOp) and isinstance(t.op, ast.Not):
+                t = t.operand
+            if isinstance(t, ast.Name) and t.id == v:
+                tests.append((n, "truth"))
+            elif isinstance(t, ast.Compare) and isinstance(t.left, ast.Name) and t.left.id == v and len(t.ops) == 1 and isinstance(t.ops[0], (ast.Is, ast.IsNot)) and isinstance(t.comparators[0], ast.Constant) and t.comparators[0].value is None:
+                tests.append((n, "identity"))
+    if not tests:
+        raise AnchorError(fi.short, f"no presence test on `{v}`")
+    qf = ctx.repo.cls("qlassfun.QlassF")
+    offenders = []
+    for b in qf.mro():
+        for m in ("__bool__", "__len__"):
+            if m in b.methods:
+                offenders.append(b.methods[m])
+    for n, kind in tests:
+        role = "the presence test on the selected function does not depend on its value"
+        if kind == "identity" or not offenders:
+            ctx.ok("MP-entrypoint", fi, role, f"`{norm(n.test)}` ({kind}); QlassF's classes define no __bool__/__len__", n)
+        else:
+            o = offenders[0]
+            ctx.fail("MP-entrypoint", fi, role, f"`if {norm(n.test)}` asks for the truth value of the selected QlassF, and {o.short} (line {o.node.lineno}) makes that value-dependent: a selected function for which it returns 0/False is treated as 'No qlassf function found' and nothing is printed", n)
 
 
 def _callee_params(repo, qual: str):
